@@ -36,6 +36,10 @@ type c03Round struct {
 	Cuts     []int  `json:"packet_cuts"`
 	EmptyEOM bool   `json:"header_only_eom"`
 	CutClass string `json:"cut_class"`
+	// StatusExtra: further header status bits on every packet of the
+	// response (attention acknowledgement 0x02, event 0x08), also next to
+	// the end-of-message bit
+	StatusExtra int `json:"other_header_status_bits,omitempty"`
 	// consumer
 	Style   string `json:"style"`    // "nextpackage" | "until"
 	AbortAt int    `json:"abort_at"` // callback invocation index at which the policy applies (-1 never)
@@ -133,6 +137,13 @@ func c03Run(c *Ctx, cs c03Case) {
 			pkts = [][]byte{xport.Packet(byte(tds.TDS_BUF_RESPONSE), xport.EOM, 0, nil)}
 		} else {
 			pkts = c02Packets(body, rd.Cuts, nil, rd.EmptyEOM)
+		}
+		if rd.StatusExtra != 0 {
+			for i := range pkts {
+				p := append([]byte(nil), pkts[i]...)
+				p[1] |= byte(rd.StatusExtra)
+				pkts[i] = p
+			}
 		}
 		fedEarly := 0
 		if rd.Sched == "overtake" && heldEOM == nil {
@@ -676,6 +687,9 @@ func c03GenRound(rnd *rt.Rand, shapes []c03Shape, si int) c03Round {
 		rd.Sched = "overtake"
 	case 1:
 		rd.Sched = "staged-nowait"
+	}
+	if rnd.Chance(1, 8) {
+		rd.StatusExtra = []int{0x02, 0x08, 0x0a}[rnd.Intn(3)]
 	}
 	exp := c03Expected(rd.Kinds)
 	if rnd.Chance(1, 8) {
